@@ -4,10 +4,12 @@
 -/
 import CijModel.Wire
 import CijModel.Ops.C10
+import CijModel.Ops.C12
 open Lean Cij.Wire
 
 def handlers : List Handler := [
-  Cij.Ops.C10.handle
+  Cij.Ops.C10.handle,
+  Cij.Ops.C12.handle
 ]
 
 def dispatch (line : String) : Json :=
